@@ -147,7 +147,7 @@ TOKEN_RE = re.compile(r"""
  | (?P<lp>\()
  | (?P<rp>\))
  | (?P<sep>[ \t]*\+[ \t]*|[ \t]+)
- | @(?P<dens>(?:(?:0|[1-9][0-9]*)?\.[0-9]+)|(?:[1-9][0-9]*\.?))(?P<dkind>[ni]?)
+ | @(?P<dens>(?:(?:0|[1-9][0-9]*)?\.[0-9]+)|(?:(?:0|[1-9][0-9]*)\.)|(?:[1-9][0-9]*))(?P<dkind>[ni]?)
 """, re.X)
 
 
